@@ -9,7 +9,7 @@ RULE = ("programs: every program of the closure / call (params x variadic x args
         "non-trivial = every program (each exercises one documented rule)")
 
 def run(ctx):
-    semcommon.run_sem(ctx, "UgoSemFam_c02" if ctx.quick else "UgoSemFam_c02t", ["default", "noopt"] if ctx.quick else ["default", "noopt", "limit1"], label="c02", sample_every=200)
+    semcommon.run_sem(ctx, "UgoSemFam_c02" if ctx.quick else "UgoSemFam_c02t", ["default", "noopt"] if ctx.quick else ["default", "noopt", "limit1"], label="c02", sample_every=200, trace_every=2 if ctx.quick else 4)
     ctx.exhaustive = True
     ctx.assumptions += ["renderer harness/cmd/vh/sem.go maps the AST to uGO source faithfully",
                         "UgoSem.tla is the documented meaning (docs/tutorial.md); values are small ints, strings, bools, arrays, maps, closures"]
